@@ -45,9 +45,18 @@ class C04(Prop):
         return out
 
     def _dv(self, rng):
-        if rng.random() < 0.5:
+        r = rng.random()
+        if r < 0.4:
             return 1.0
-        return 10 ** rng.uniform(-6, 6)
+        if r < 0.8:
+            return 10 ** rng.uniform(-6, 6)
+        return 10 ** rng.uniform(-30, 30)
+
+    def _edge_values(self, rng, n):
+        # maxima in the window where exp() itself neither overflows nor underflows but exp() * dV or a long sum does
+        base = rng.choice([1, -1]) * rng.uniform(640.0, 709.5)
+        spread = rng.choice([0.0, 1.0, 5.0, 30.0])
+        return [base - rng.random() * spread for _ in range(n)]
 
     def gen(self, rng, tier):
         n = 400 if tier == 'quick' else 6000
@@ -55,7 +64,7 @@ class C04(Prop):
             if rng.random() < 0.6:
                 nr = rng.randint(1, 6)
                 nc = rng.randint(1, 8)
-                vals = self._values(rng, nr * nc)
+                vals = self._values(rng, nr * nc) if rng.random() < 0.85 else self._edge_values(rng, nr * nc)
                 pat = rng.choice(['none', 'none', 'random', 'column', 'row', 'all'])
                 if pat == 'random':
                     vals = [NEG_INF if rng.random() < 0.3 else v for v in vals]
@@ -74,12 +83,19 @@ class C04(Prop):
             else:
                 n1 = rng.randint(1, 12)
                 xs = self._values(rng, n1)
+                edge_dv = None
+                if rng.random() < 0.25:
+                    n1 = rng.choice([2, 3, 8, 400, 3000])
+                    xs = self._edge_values(rng, n1)
+                    # volume elements that push exp(max) * dV (or a long sum) over the edge of the double range on the same side
+                    if rng.random() < 0.7:
+                        edge_dv = 10 ** (rng.uniform(3, 30) * (1 if xs[0] > 0 else -1))
                 pat = rng.choice(['none', 'none', 'random', 'all'])
                 if pat == 'random':
                     xs = [NEG_INF if rng.random() < 0.3 else v for v in xs]
                 elif pat == 'all':
                     xs = [NEG_INF] * n1
-                yield {'kind': 'norm', 'xs': xs, 'dV': self._dv(rng),
+                yield {'kind': 'norm', 'xs': xs, 'dV': edge_dv if edge_dv is not None else self._dv(rng),
                        'container': rng.choice(['array', 'matrix', 'lnpdf']),
                        'shift': rng.choice([0.0, 500.0, -500.0, 37.25])}
 
@@ -91,7 +107,12 @@ class C04(Prop):
         elif container == 'matrix':
             r = self.pr.ln_marginalise(np.matrix(rows, dtype=float), axis=axis, dV=dV)
         else:
-            r = self.pr.LnPDF(np.array(rows, dtype=float), dV=dV).marginalise(axis=axis)._ln_pdf
+            obj = self.pr.LnPDF(np.array(rows, dtype=float), dV=dV).marginalise(axis=axis)
+            r = obj._ln_pdf
+            # the wrapper must carry the volume element it was constructed with: normalising the marginal uses it
+            self._last = {'dV_after': float(obj.dV),
+                          'chain': [float(v) for v in np.asarray(obj.normalise()._ln_pdf, dtype=float).flatten()],
+                          'output': [float(v) for v in np.asarray((self.pr.LnPDF(np.array(rows, dtype=float), dV=dV).output() if axis == 0 else obj.normalise())._ln_pdf, dtype=float).flatten()]}
         return [float(v) for v in np.asarray(r, dtype=float).flatten()]
 
     def _norm(self, xs, dV, container):
@@ -107,7 +128,10 @@ class C04(Prop):
     def impl(self, case):
         sh = case.get('shift', 0.0)
         if case['kind'] == 'marg':
+            self._last = None
             out = {'out': self._marg(case['rows'], case['axis'], case['dV'], case['container'])}
+            if self._last:
+                out.update(self._last)
             if sh:
                 rows2 = [[v + sh for v in r] for r in case['rows']]
                 out['shifted'] = self._marg(rows2, case['axis'], case['dV'], case['container'])
@@ -177,6 +201,16 @@ class C04(Prop):
                 elif checkable and not close(e, g):
                     k = 'marg-lost-mass' if g == NEG_INF else 'marg-inexact'
                     out.append((k, 'marginal entry %d is %r, exact log-sum-exp is %r' % (j, g, e), {'expected': exp, 'got': got}))
+            if 'dV_after' in impl and not out:
+                if not close(impl['dV_after'], case['dV'], atol=0.0):
+                    out.append(('lnpdf-dv', 'LnPDF(dV=%r).marginalise() returned an object with dV=%r' % (case['dV'], impl['dV_after']), None))
+                for nm in ('chain', 'output'):
+                    fin = [v for v in impl[nm] if v != NEG_INF]
+                    if fin and any(v != NEG_INF for v in got):
+                        tot = lse(impl[nm]) + math.log(case['dV'])
+                        if not close(tot, 0.0, atol=1e-9):
+                            out.append(('lnpdf-chain', 'LnPDF(dV=%r): marginalise then normalise (%s) gives log(sum exp * dV) = %r, not 0' % (case['dV'], nm, tot), None))
+                            break
             if sh and 'shifted' in impl and not out:
                 for j, (g, g2) in enumerate(zip(got, impl['shifted'])):
                     if not close(g + sh if g != NEG_INF else NEG_INF, g2):
